@@ -154,9 +154,26 @@ def r11_2(prog, rep):
     sh = None
     if ok:
         a = envs[0].value.args[0]
-        ok = isinstance(a, ast.List) and len(a.elts) == 1 and isinstance(a.elts[0], ast.Dict) and all(k is None for k in a.elts[0].keys)
-        sh = [unparse(v) for v in a.elts[0].values] if ok else None
-        ok = ok and sorted(sh) == ["ENCODINGS", "TRANSFORMS"]
+        ok = isinstance(a, ast.List) and len(a.elts) == 1
+        sh = None
+        if ok:
+            d0 = a.elts[0]
+            # the merged table of built-ins: {**A, **B}, A | B, dict(A, **B), {**A} | B
+            def merged(e):
+                if isinstance(e, ast.Dict) and all(k is None for k in e.keys):
+                    out = []
+                    for v in e.values:
+                        m_ = merged(v)
+                        out += m_ if m_ is not None else [unparse(v)]
+                    return out
+                if isinstance(e, ast.BinOp) and isinstance(e.op, ast.BitOr):
+                    l_, r_ = merged(e.left), merged(e.right)
+                    return (l_ if l_ is not None else [unparse(e.left)]) + (r_ if r_ is not None else [unparse(e.right)])
+                if isinstance(e, ast.Call) and dotted(e.func) == "dict" and len(e.args) == 1 and all(k.arg is None for k in e.keywords):
+                    return [unparse(e.args[0])] + [unparse(k.value) for k in e.keywords]
+                return None
+            sh = merged(d0)
+            ok = sh is not None and sorted(sh) == ["ENCODINGS", "TRANSFORMS"]
     obl(rep, st, envs[0] if envs else st.node, "R11.2", ok, "Call.set_type builds an environment from {**TRANSFORMS, **ENCODINGS}", str(sh))
     asg = [s for s in walk_local(st.node) if isinstance(s, ast.Assign) and is_self_attr(s.targets[0], "env")]
     ok = len(asg) == 1 and isinstance(asg[0].value, ast.Call) and isinstance(asg[0].value.func, ast.Attribute) \
